@@ -191,10 +191,13 @@ Print Assumptions html_template_attr_converse.
 
 (* C09 — templates, raw text (partial): with a delimiter that does not start with '<', a region [p,q) in the content
    of a raw-text element lies inside the Text token, HasTemplate() = true, whenever p is reached from the start of
-   the content over whole regions and over bytes the scanner steps over one at a time (raw_reach / raw_plain: a byte
-   other than '<' at which no opening delimiter starts, or a '<' not followed by '/' and, in a script, not by '!').
-   NOT proved (correspondence + oracle only): regions after a "</" that is not the element's end tag and regions
-   inside or after a "<!" section of a script.  For delimiters that start with '<' the clause is false (known
+   the content (raw_reach) over: whole regions; bytes the scanner steps over one at a time (raw_plain: a byte other
+   than '<' at which no opening delimiter starts, or a '<' not followed by '/' and, in a script, not by "!--"); a "</"
+   + letters that is not the element's end tag (end_tag_here_b = false; the scanner jumps over the letters); a whole
+   "<!--" ... "-->" section of a script (Script.esc_end says it is left by "-->").
+   Exact exceptions: (1) delimiters are not looked for INSIDE a "<!--" section of a script (known finding
+   c09-template:script-comment), so a region that starts there is not reported; (2) an opening delimiter that starts
+   inside the letters after a "</" is jumped over; (3) for delimiters that start with '<' the clause is false (known
    finding c09-template:rawtext-lt). *)
 Theorem html_template_atomic_rawtext_partial :
   forall c d l p q, cfg_ok c -> html_inv d l -> intag l = false ->
